@@ -57,7 +57,7 @@ STEMS = ["vol", "emd_1234", "membrane", "a.em", "mrc_avg", "x.mrc", "tomo.rec", 
 
 def plan(tier):
     if tier == "quick":
-        return dict(n_cases=50 * len(CLASSES), shards=2, classes=CLASSES, timeout_s=600,
+        return dict(n_cases=50 * len(CLASSES), shards=4, classes=CLASSES, timeout_s=600,
                     min_evals={"write_bytes": 3800, "read_matches_bytes": 5500, "roundtrip": 3000, "raw_read": 1600,
                                "convert_voxels": 780, "overwrite_refusal": 120},
                     min_anchor_calls={"cryomap.em2mrc": 300, "cryomap.mrc2em": 300})
